@@ -24,10 +24,9 @@ LEVEL_TEXT = ("image-source theorems (length, mirror law, boundary points, direc
               "indices and validity + completeness of the path enumeration proved in Lean; the same model text run on Float "
               "agrees with UniformRayTracer/UniformRayTracePath, LayeredRayTracer._trace_path/_build_path/_potential_paths "
               "on every sampled input, and layered solutions of cut media reproduce the unsplit tracers")
-LEVEL_NOTE = ("floating-point rounding is not modelled (tolerance run); C18_uniform_directions_partial proves the emitted "
-              "direction = direction of the straight line to the mirrored receiver only (the received direction - same "
-              "horizontal part, vertical part reversed once per reflection - is compared by the correspondence run and the "
-              "mirror-image oracle, not proved); brentq in LayeredRayTracer.solutions is not modelled: its launch angles are "
+LEVEL_NOTE = ("floating-point rounding is not modelled (tolerance run); no _partial theorem: C18_uniform_directions proves "
+              "emitted = line to the mirrored receiver and received = the same with the vertical part reversed once per "
+              "reflection, for every reflection count; brentq in LayeredRayTracer.solutions is not modelled: its launch angles are "
               "validated as certificates (sum of the model's radial distances = rho); the radial distance inside an "
               "exponential layer is the closed form of property C01 and enters C18_split_exponential_telescopes as an "
               "arbitrary antiderivative F; two-element groups (turn-over inside a gradient layer) are modelled in stepAngle "
